@@ -51,6 +51,7 @@ type Term struct {
 	off     *big.Int
 	lenHint *Term
 	parts   []*Term // operands of a string concatenation (kept for structural splitting)
+	code    *Term   // str.from_code operand: this string is exactly one character (see cv.go)
 }
 
 func (t *Term) String() string { return t.S }
@@ -270,6 +271,20 @@ func Eq(a, b *Term) *Term {
 		}
 		if b.Hi != nil && a.Lo != nil && b.Hi.Cmp(a.Lo) < 0 {
 			return tFalse
+		}
+	}
+	if a.Sort == SStr {
+		if ca, ok := charVec(a); ok {
+			if cb, ok := charVec(b); ok {
+				if len(ca) != len(cb) {
+					return tFalse
+				}
+				cs := make([]*Term, len(ca))
+				for i := range ca {
+					cs[i] = Eq(ca[i].code(), cb[i].code())
+				}
+				return And(cs...)
+			}
 		}
 	}
 	if a.Sort == SBool {
@@ -532,6 +547,9 @@ func StrLen(s *Term) *Term {
 	if s.lenHint != nil {
 		return s.lenHint
 	}
+	if cv, ok := charVec(s); ok {
+		return KInt64(int64(len(cv)))
+	}
 	return &Term{S: "(str.len " + s.S + ")", Sort: SInt, Lo: big0, Hi: maxLen}
 }
 
@@ -574,6 +592,14 @@ func Substr(s, off, n *Term) *Term {
 	if off.K && off.I.Sign() == 0 && n.S == StrLen(s).S {
 		return s
 	}
+	if off.K && n.K && !s.K {
+		if cv, ok := charVec(s); ok {
+			o, l := int(off.I.Int64()), int(n.I.Int64())
+			if o >= 0 && l >= 0 && o+l <= len(cv) {
+				return cvTerm(cv[o : o+l])
+			}
+		}
+	}
 	t := &Term{S: app("str.substr", s, off, n), Sort: SStr}
 	return t
 }
@@ -585,6 +611,13 @@ func StrAtCode(s, i *Term) *Term {
 			return KInt64(int64(s.Str[idx]))
 		}
 	}
+	if i.K && !s.K {
+		if cv, ok := charVec(s); ok {
+			if idx := int(i.I.Int64()); idx >= 0 && idx < len(cv) {
+				return cv[idx].code()
+			}
+		}
+	}
 	return &Term{S: "(str.to_code (str.at " + s.S + " " + i.S + "))", Sort: SInt, Lo: big0, Hi: big255}
 }
 
@@ -592,7 +625,7 @@ func StrFromCode(c *Term) *Term {
 	if c.K {
 		return KStr(string([]byte{byte(c.I.Int64())}))
 	}
-	return &Term{S: "(str.from_code " + c.S + ")", Sort: SStr}
+	return &Term{S: "(str.from_code " + c.S + ")", Sort: SStr, code: c}
 }
 
 func StrPrefixOf(p, s *Term) *Term {
@@ -601,6 +634,14 @@ func StrPrefixOf(p, s *Term) *Term {
 	}
 	if p.K && p.Str == "" {
 		return tTrue
+	}
+	if p.K {
+		if cv, ok := charVec(s); ok {
+			if len(p.Str) > len(cv) {
+				return tFalse
+			}
+			return Eq(p, cvTerm(cv[:len(p.Str)]))
+		}
 	}
 	return &Term{S: app("str.prefixof", p, s), Sort: SBool}
 }
@@ -611,6 +652,14 @@ func StrSuffixOf(p, s *Term) *Term {
 	if p.K && p.Str == "" {
 		return tTrue
 	}
+	if p.K {
+		if cv, ok := charVec(s); ok {
+			if len(p.Str) > len(cv) {
+				return tFalse
+			}
+			return Eq(p, cvTerm(cv[len(cv)-len(p.Str):]))
+		}
+	}
 	return &Term{S: app("str.suffixof", p, s), Sort: SBool}
 }
 func StrContains(s, sub *Term) *Term {
@@ -619,6 +668,18 @@ func StrContains(s, sub *Term) *Term {
 	}
 	if sub.K && sub.Str == "" {
 		return tTrue
+	}
+	if sub.K {
+		if cv, ok := charVec(s); ok {
+			var alts []*Term
+			for i := 0; i+len(sub.Str) <= len(cv); i++ {
+				alts = append(alts, Eq(sub, cvTerm(cv[i:i+len(sub.Str)])))
+			}
+			if len(alts) == 0 {
+				return tFalse
+			}
+			return Or(alts...)
+		}
 	}
 	return &Term{S: app("str.contains", s, sub), Sort: SBool}
 }
